@@ -205,7 +205,7 @@ class WindowedWarmUpStager(Stager):
         trace_funcs = tuple(trace_funcs) if trace_funcs is not None else trace_funcs
         fast_adapters = {
             trans_key: [adapter for adapter in adapter_list if adapter.is_fast]
-            for trans_key, adapter_list in adapters.items()
+            for trans_key, adapter_list in (adapters or {}).items()
         }
         if (
             self.n_init_fast_stage_iter
